@@ -81,6 +81,9 @@ func peer(e string) string {
 	return "c"
 }
 
+// Since returns the time elapsed since the network was created.
+func (n *Net) Since() time.Duration { return time.Since(n.start) }
+
 // SetDecider replaces the fate decider.
 func (n *Net) SetDecider(d Decider) {
 	n.mu.Lock()
